@@ -716,6 +716,7 @@ class Model(IOSpecOperation, EditableParent):
         # the following steps calculate
         recalc = self._impl.system._recalc_dependents
         self._impl.system._recalc_dependents = False
+        pasted = []
         try:
             for step in actions:
                 action, nodes = step
@@ -734,6 +735,7 @@ class Model(IOSpecOperation, EditableParent):
                         )
                     for node, value in node_value_pairs:
                         node[OBJ].set_value_from_key(node[KEY], value)
+                        pasted.append(node)
 
                 elif action == "clear":
                     for n in nodes:
@@ -743,6 +745,12 @@ class Model(IOSpecOperation, EditableParent):
                     gc.collect()
                 else:
                     raise RuntimeError("must not happen")
+        except BaseException:
+            # The values pasted so far are not inputs of the user's:
+            # left behind, they would survive the repair of the failure
+            for node in pasted:
+                node[OBJ].clear_value_at(node[KEY])
+            raise
         finally:
             self._impl.system._recalc_dependents = recalc
             if gc_status:
